@@ -1041,11 +1041,23 @@ func opUnStake(pc *uint64, interpreter *EVMInterpreter, callContext *callCtx) ([
 		ret = false
 	} else {
 		money := big.NewInt(0).SetBytes(argValue.Bytes())
-		moneyWithoutDecimal, _ := strconv.ParseUint(utility.BigIntToStrWithoutDot(money), 10, 0)
+		moneyWithoutDecimal, parseErr := strconv.ParseUint(utility.BigIntToStrWithoutDot(money), 10, 0)
+		if nil == parseErr && math.MaxUint64 == moneyWithoutDecimal {
+			// MaxUint64 means "the whole stake" to GetRefundStake (UNSTAKEALL); not an amount
+			parseErr = fmt.Errorf("unstake amount out of range: %s", money.String())
+		}
 
 		height := interpreter.evm.BlockNumber
 		accountdb := interpreter.evm.accountDB
-		refundHeight, realMoney, addr, refundErr := service.RefundManagerImpl.GetRefundStake(height.Uint64(), miner, thisAddress.Bytes(), moneyWithoutDecimal, accountdb, "evm")
+		var (
+			refundHeight uint64
+			realMoney    *big.Int
+			addr         []byte
+		)
+		refundErr := parseErr
+		if nil == refundErr {
+			refundHeight, realMoney, addr, refundErr = service.RefundManagerImpl.GetRefundStake(height.Uint64(), miner, thisAddress.Bytes(), moneyWithoutDecimal, accountdb, "evm")
+		}
 
 		if nil != refundErr {
 			ret = false
@@ -1061,7 +1073,8 @@ func opUnStake(pc *uint64, interpreter *EVMInterpreter, callContext *callCtx) ([
 				refundInfo.AddRefundInfo(addr, remain)
 			}
 
-			refundInfo.AddRefundInfo(source.Bytes(), money)
+			// refund exactly what left the stake (whole RPG units), never the raw argument
+			refundInfo.AddRefundInfo(source.Bytes(), realMoney)
 
 			data := make(map[uint64]types.RefundInfoList)
 			data[refundHeight] = refundInfo
